@@ -655,6 +655,8 @@ fn run_profiles(o: &Opts, inject_only: bool) {
         let batch: Vec<u64> = ids[next..(next + par).min(ids.len())].to_vec();
         next += batch.len();
         sink.pending(&format!("cases {:?}", batch));
+        // a process abort (e.g. an allocation failure inside the stack) cannot be caught: name the cases that were running
+        eprintln!("gmq-sim {}: running cases {:?} (re-run one with --only-case)", o.prop, batch);
         let handles: Vec<_> = batch
             .iter()
             .map(|&id| {
